@@ -52,7 +52,12 @@ Definition spec_check (c : case) : option bool :=
         else
           let st := pair_status (k_case_b c) (Nat.min i j) (Nat.max i j) in
           same y (cell b j i) &&
-          (if Z.eqb st 0 then same (cell a i j) y
+          (if Z.eqb st 0 then
+             same (cell a i j) y ||
+             (* a finite distance above the cap NT_DIST_OVER is replaced, like an undefined one, by twice the
+                largest entry of ITS matrix: recognisable as the largest finite entry on both sides *)
+             (Z.eqb (fl_class (cell a i j)) 0 && Qle_bool (qmax (finite_cells a n)) (fl_q (cell a i j)) &&
+              Z.eqb (fl_class y) 0 && Qle_bool mxb (fl_q y))
            else if Z.eqb st 2 then negb (Z.eqb (fl_class y) 0) || Qle_bool mxb (fl_q y)
            else if Z.eqb st 1 then   (* borderline: either the same finite value, or treated as undefined *)
              same (cell a i j) y || negb (Z.eqb (fl_class y) 0) || Qle_bool mxb (fl_q y)
